@@ -1,5 +1,5 @@
 ID = "C08"
-N_QUICK = 220
+N_QUICK = 170
 N_THOROUGH = 3000
 MODEL_SHOW = "run"
 DISAGREE_IS_VIOLATION = True   # observables are exactly what the property fixes
@@ -11,7 +11,7 @@ RULE = ("exhaustive: every event list of length <= 3 (quick; 5-event alphabet: r
         "first/last/alone/twice, dead records, duplicate ids) x every alphabet event and delete/register pairs about the "
         "node itself; self-state-systematic: state change, lease loss, then the DELETE/PUT echo about the node itself in "
         "one or two responses or with the OLD state, re-watch; all-batchings: every split of random lists of 2-5 "
-        "(thorough 2-7) events; random: provider lives of 1-3 watch segments (1-32 events over 4 node ids incl. the node "
+        "(thorough 2-7) events; random: provider lives of 1-3 watch segments (1-20 events over 4 node ids incl. the node "
         "itself, duplicates, deletes of unknown nodes, junk events, malformed service names, random splits incl. empty "
         "responses) interleaved with own state changes (+ echo), lease losses (incl. failing retry), closed/failed watch "
         "streams, shutdown, queries of the package-level getters, failing starts (undecodable listing entry, failing Get, "
